@@ -449,4 +449,204 @@ theorem T_definition {w : W} {ts : List Tok} (extend : Bool) (d : Definition) (h
       simp [hk.1, hk.2]
     simpa [formatDefinition, hk, hk'] using h
 
+omit hind in
+theorem printBlock_nil {α : Type} (f : α → List Tok) : printBlock f [] = [] := rfl
+
+omit hind in
+theorem normDef_desc (cfg : Cfg) (d : Definition) : (normDef cfg d).desc = normDesc cfg d.desc := rfl
+
+omit hind in
+theorem normDef_kind (cfg : Cfg) (d : Definition) : (normDef cfg d).kind = d.kind := rfl
+
+omit hind in
+theorem formatLocations_state : ∀ (ls : List Bytes) (w : W), ls ≠ [] →
+    (formatLocations cfg ls w).padNext = true ∧ (formatLocations cfg ls w).lineHead = false
+  | [], _, h => absurd rfl h
+  | [l], w, _ => by simp [formatLocations]
+  | l :: m :: rest, w, _ => by
+    have := formatLocations_state (m :: rest) (writeWord cfg [124] (writeWord cfg l w)) (by simp)
+    simpa [formatLocations] using this
+
+omit hind in
+theorem printBlock_congr {α : Type} (f g : α → List Tok) (xs : List α) (h : ∀ x ∈ xs, f x = g x) :
+    printBlock f xs = printBlock g xs := by
+  unfold printBlock
+  split
+  · rfl
+  · congr 2
+    rw [List.flatMap_def, List.flatMap_def, List.map_congr_left h]
+
+omit hind in
+/-- for a definition of the shape its kind prescribes, the formatter's generic sequence is the
+    unparser's body of that kind -/
+theorem genDefBody_eq (cfg : Cfg) (d : Definition) (hs : shapeOk d = true) :
+    genDefBody (normDef cfg d) = printDefBodyD descTok (normDef cfg d) := by
+  obtain ⟨kind, desc, name, dirs, ifs, fields, types, evs, pos, bi⟩ := d
+  cases kind <;>
+    simp only [shapeOk, Bool.and_eq_true, List.isEmpty_iff, List.all_eq_true, Option.isNone_iff_eq_none] at hs
+  · obtain ⟨⟨⟨rfl, rfl⟩, rfl⟩, rfl⟩ := hs
+    simp [genDefBody, printDefBodyD, normDef, printImplements, printMembers, printBlock]
+  · obtain ⟨⟨rfl, rfl⟩, hf⟩ := hs
+    have e := printBlock_congr (genFieldD descTok) (printFieldDefD descTok) (fields.map (normFieldDef cfg)) (by
+      intro f hfm
+      simp only [List.mem_map] at hfm
+      obtain ⟨f0, hf0, rfl⟩ := hfm
+      simp [genFieldD, printFieldDefD, normFieldDef, hf f0 hf0, printDefault])
+    simp [genDefBody, printDefBodyD, normDef, printMembers, printBlock_nil, e]
+  · obtain ⟨⟨rfl, rfl⟩, hf⟩ := hs
+    have e := printBlock_congr (genFieldD descTok) (printFieldDefD descTok) (fields.map (normFieldDef cfg)) (by
+      intro f hfm
+      simp only [List.mem_map] at hfm
+      obtain ⟨f0, hf0, rfl⟩ := hfm
+      simp [genFieldD, printFieldDefD, normFieldDef, hf f0 hf0, printDefault])
+    simp [genDefBody, printDefBodyD, normDef, printMembers, printBlock_nil, e]
+  · obtain ⟨⟨rfl, rfl⟩, rfl⟩ := hs
+    simp [genDefBody, printDefBodyD, normDef, printImplements, printBlock]
+  · obtain ⟨⟨rfl, rfl⟩, rfl⟩ := hs
+    simp [genDefBody, printDefBodyD, normDef, printImplements, printMembers, printBlock]
+  · obtain ⟨⟨⟨rfl, rfl⟩, rfl⟩, hf⟩ := hs
+    have e := printBlock_congr (genFieldD descTok) (printInputFieldD descTok) (fields.map (normFieldDef cfg)) (by
+      intro f hfm
+      simp only [List.mem_map] at hfm
+      obtain ⟨f0, hf0, rfl⟩ := hfm
+      simp [genFieldD, printInputFieldD, normFieldDef, hf f0 hf0, printArgDefsD])
+    simp [genDefBody, printDefBodyD, normDef, printImplements, printMembers, printBlock_nil, e]
+
+/-- `FormatDefinitionList` for type definitions -/
+theorem T_definitions : ∀ (ds : List Definition) (w : W) (ts : List Tok), LexTo w.text ts false →
+    ds.all defOk = true →
+    LexTo (formatDefinitionList cfg false ds w).text
+      (ts ++ (((ds.filter (keepDef cfg)).map (normDef cfg)).map (printDefinitionD descTok)).flatten) false
+  | [], w, ts, h, _ => by simpa [formatDefinitionList] using h
+  | d :: ds, w, ts, h, hd => by
+    simp only [List.all_cons, Bool.and_eq_true] at hd
+    have hsh : shapeOk d = true := by
+      have := hd.1; simp only [defOk, Bool.and_eq_true] at this; exact this.2
+    have h1 := T_definition hind false d h hd.1 (by simp)
+    have h2 := T_definitions ds _ _ h1 hd.2
+    unfold formatDefinitionList at h2 ⊢
+    by_cases hk : keepDef cfg d = true
+    · simpa [hk, List.filter_cons, printDefinitionD, genDefBody_eq cfg d hsh, normDef_desc, normDef_kind,
+        List.append_assoc] using h2
+    · simpa [hk, List.filter_cons] using h2
+
+/-- `FormatDefinitionList` for type extensions -/
+theorem T_extensions : ∀ (ds : List Definition) (w : W) (ts : List Tok), LexTo w.text ts false →
+    ds.all extOk = true →
+    LexTo (formatDefinitionList cfg true ds w).text
+      (ts ++ (((ds.filter (keepDef cfg)).map (normDef cfg)).map (printExtensionD descTok)).flatten) false
+  | [], w, ts, h, _ => by simpa [formatDefinitionList] using h
+  | d :: ds, w, ts, h, hd => by
+    simp only [List.all_cons, Bool.and_eq_true, extOk, List.isEmpty_iff] at hd
+    have hsh : shapeOk d = true := by
+      have := hd.1.1; simp only [defOk, Bool.and_eq_true] at this; exact this.2
+    have h1 := T_definition hind true d h hd.1.1 (fun _ => hd.1.2)
+    have h2 := T_extensions ds _ _ h1 (by simpa [extOk] using hd.2)
+    unfold formatDefinitionList at h2 ⊢
+    by_cases hk : keepDef cfg d = true
+    · simpa [hk, List.filter_cons, printExtensionD, genDefBody_eq cfg d hsh, normDef_kind, List.append_assoc] using h2
+    · simpa [hk, List.filter_cons] using h2
+
+/-! ### directive definitions -/
+
+/-- the loop of the locations: `A | B | C` -/
+theorem T_locations : ∀ (ls : List Bytes) (w : W) (ts : List Tok), ls ≠ [] → I false w ts →
+    ls.all isNameB = true → LexTo (formatLocations cfg ls w).text (ts ++ printSep .pipe ls) true
+  | [], _, _, h, _, _ => absurd rfl h
+  | [l], w, ts, _, h, hl => by
+    have hb := blankIndent_of_allBlank hind
+    simp at hl
+    simpa [formatLocations, printSep] using
+      P_word hb (cfg := cfg) h (tokText_name l hl).lexTo (StartOK_false _) (trimSpace_name _ hl)
+  | l :: m :: rest, w, ts, _, h, hl => by
+    have hb := blankIndent_of_allBlank hind
+    simp only [List.all_cons, Bool.and_eq_true] at hl
+    have h1 := P_word hb (cfg := cfg) h (tokText_name l hl.1).lexTo (StartOK_false _) (trimSpace_name _ hl.1)
+    have h2 := P_word hb (cfg := cfg) (g := false) (I.mk h1 (by simp [tightOf])) tokText_pipe.lexTo
+      (StartOK_false _) (by decide)
+    have h3 := T_locations (m :: rest) _ _ (by simp) (I.free h2) (by simp [hl.2])
+    simpa [formatLocations, printSep, List.append_assoc] using h3
+
+/-- `FormatDirectiveDefinition` -/
+theorem T_directiveDef {w : W} {ts : List Tok} (d : DirectiveDef) (h : LexTo w.text ts false)
+    (hd : dirDefOk d = true) :
+    LexTo (formatDirectiveDefinition cfg srcZeroBuiltIn d w).text
+      (ts ++ (if keepDirectiveDef cfg d = true then printDirectiveDefD descTok (normDirectiveDef cfg d) else []))
+      false := by
+  have hb := blankIndent_of_allBlank hind
+  by_cases hk : keepDirectiveDef cfg d = true
+  · have hk' : (!cfg.emitBuiltin && srcZeroBuiltIn d.pos.src) = false := by
+      simp only [keepDirectiveDef, Bool.or_eq_true, Bool.not_eq_true'] at hk
+      rcases hk with hk | hk <;> simp [hk]
+    obtain ⟨desc, name, args, locs, rep, pos⟩ := d
+    simp only [dirDefOk, Bool.and_eq_true, Bool.not_eq_true', List.isEmpty_eq_false_iff] at hd
+    obtain ⟨⟨⟨⟨hdesc, hname⟩, hargs⟩, hlne⟩, hlocs⟩ := hd
+    have h1 := T_description hind desc (I.free (g := false) h) hdesc
+    have h2 := P_word hb (cfg := cfg) h1 (tokText_kw "directive" (by decide)).lexTo (StartOK_false _) (by decide)
+    have h3 := P_str hb (cfg := cfg) (g := false) (I.mk h2 (by simp [tightOf])) tokText_at.lexTo (StartOK_false _)
+    have h4 := P_word hb (cfg := cfg) (g := false) (I.free h3) (tokText_name name hname).lexTo (StartOK_false _)
+      (trimSpace_name _ hname)
+    have h5 : I false (if (!args.isEmpty) = true then
+          formatArgumentDefinitionList cfg args (noPadding (writeWord cfg name (writeStr cfg [64]
+            (writeWord cfg (str "directive") (writeDescription cfg desc w)))))
+        else writeWord cfg name (writeStr cfg [64] (writeWord cfg (str "directive") (writeDescription cfg desc w))))
+        (ts ++ descTok (normDesc cfg desc) ++ [tKw "directive"] ++ [tP .at] ++ [tName name]
+          ++ printArgDefsD descTok (args.map (normArgDef cfg))) := by
+      cases args with
+      | nil => simpa [printArgDefsD] using I.mk (g := false) h4 (by simp [tightOf])
+      | cons a as =>
+        have := T_argDefList hind (g := true) (w := noPadding (writeWord cfg name (writeStr cfg [64]
+          (writeWord cfg (str "directive") (writeDescription cfg desc w))))) (a :: as)
+          (I.mk h4 (by simp [tightOf])) hargs
+        have hfree : LexTo (formatArgumentDefinitionList cfg (a :: as) (noPadding (writeWord cfg name
+            (writeStr cfg [64] (writeWord cfg (str "directive") (writeDescription cfg desc w)))))).text
+            (ts ++ descTok (normDesc cfg desc) ++ [tKw "directive"] ++ [tP .at] ++ [tName name]
+              ++ printArgDefsD descTok ((a :: as).map (normArgDef cfg))) true := this.glue
+        exact I.mk (by simpa using hfree) (by simp [tightOf, formatArgumentDefinitionList])
+    have h6 : I false (if rep = true then writeWord cfg (str "repeatable")
+          (if (!args.isEmpty) = true then
+            formatArgumentDefinitionList cfg args (noPadding (writeWord cfg name (writeStr cfg [64]
+              (writeWord cfg (str "directive") (writeDescription cfg desc w)))))
+          else writeWord cfg name (writeStr cfg [64] (writeWord cfg (str "directive") (writeDescription cfg desc w))))
+        else
+          (if (!args.isEmpty) = true then
+            formatArgumentDefinitionList cfg args (noPadding (writeWord cfg name (writeStr cfg [64]
+              (writeWord cfg (str "directive") (writeDescription cfg desc w)))))
+          else writeWord cfg name (writeStr cfg [64] (writeWord cfg (str "directive") (writeDescription cfg desc w)))))
+        (ts ++ descTok (normDesc cfg desc) ++ [tKw "directive"] ++ [tP .at] ++ [tName name]
+          ++ printArgDefsD descTok (args.map (normArgDef cfg)) ++ (if rep = true then [tKw "repeatable"] else [])) := by
+      cases rep with
+      | false => simpa using h5
+      | true =>
+        have := P_word hb (cfg := cfg) h5 (tokText_kw "repeatable" (by decide)).lexTo (StartOK_false _) (by decide)
+        exact I.mk (by simpa using this) (by simp [tightOf])
+    have h7 := P_word hb (cfg := cfg) h6 (tokText_kw "on" (by decide)).lexTo (StartOK_false _) (by decide)
+    have h8 := T_locations hind locs _ _ hlne (I.mk h7 (by simp [tightOf])) hlocs
+    have h9 := P_newline (g := false) (I.mk h8 (by
+      intro _
+      have hst := fun w' => formatLocations_state (cfg := cfg) locs w' hlne
+      simp [tightOf, hst]))
+    have hle : locs.isEmpty = false := by cases locs <;> simp_all
+    cases rep <;> cases hae : args.isEmpty <;>
+      simpa [formatDirectiveDefinition, hk, hk', hle, hae, printDirectiveDefD, normDirectiveDef, List.append_assoc]
+        using h9
+  · have hk' : (!cfg.emitBuiltin && srcZeroBuiltIn d.pos.src) = true := by
+      simp only [keepDirectiveDef, Bool.or_eq_true, Bool.not_eq_true', not_or, Bool.not_eq_false] at hk
+      simp [hk.1, hk.2]
+    simpa [formatDirectiveDefinition, hk, hk'] using h
+
+theorem T_directiveDefs : ∀ (ds : List DirectiveDef) (w : W) (ts : List Tok), LexTo w.text ts false →
+    ds.all dirDefOk = true →
+    LexTo (ds.foldl (fun w dd => formatDirectiveDefinition cfg srcZeroBuiltIn dd w) w).text
+      (ts ++ (((ds.filter (keepDirectiveDef cfg)).map (normDirectiveDef cfg)).map
+        (printDirectiveDefD descTok)).flatten) false
+  | [], w, ts, h, _ => by simpa using h
+  | d :: ds, w, ts, h, hd => by
+    simp only [List.all_cons, Bool.and_eq_true] at hd
+    have h1 := T_directiveDef hind d h hd.1
+    have h2 := T_directiveDefs ds _ _ h1 hd.2
+    by_cases hk : keepDirectiveDef cfg d = true
+    · simpa [hk, List.filter_cons, List.append_assoc] using h2
+    · simpa [hk, List.filter_cons] using h2
+
 end Gql.Format
